@@ -1,4 +1,29 @@
-import Emboss.Model.Lr1Valid
+/-
+C08 — the LR(1) generator builds a parser for exactly the grammar's language.
+
+Translation validation: for all grammars `G`, automata `A` (tables as dumped from the real
+`lr1.Parser`) and certificates `C`, `Valid G A C` (decided by the executable checker, run on
+every generated table) implies the theorems below about `run A` — the model of `Parser.parse`.
+-/
+import Emboss.Lemmas.Lr1Sound
 namespace Emboss.Lr1
-theorem C08_validator_decides {G A C} (h : validB G A C = true) : Valid G A C := validB_sound h
+
+/-- **Soundness.**  If the tables validate and the parser accepts `w` with tree `t`, then `t`
+is a derivation of `w`: every node an instance of a production of `G`, the root is the start
+symbol, the leaves are the input tokens in order.  (`w` must not contain a token whose symbol
+is the end-of-input marker: see the open finding `end-of-input-symbol-inside-token-list`.) -/
+theorem C08_sound {G : Grammar} {A : Automaton} {C : Cert} (hv : Valid G A C)
+    {w : List Token} (hw : ∀ t ∈ w, t.sym ≠ G.eoi) {fuel : Nat} {t : Tree}
+    (h : run A fuel w = .accept t) : Derives G t w := by
+  obtain ⟨hp, hr, k, hk, hy⟩ := (runFrom_post hv w fuel init (inv_init w)).2 t h
+  refine ⟨hp, hr, ?_⟩
+  rw [hy, List.take_of_length_le (lookahead_eoi_ge hw hk)]
+
+/-- **Safety.**  Over validated tables `Parser.parse` never raises: no `KeyError` (missing goto
+or action row), no failed assertion, no stack underflow, no shift past the end of input — for
+every token list (also ill-formed ones) and every step budget. -/
+theorem C08_safe {G : Grammar} {A : Automaton} {C : Cert} (hv : Valid G A C)
+    (w : List Token) (fuel : Nat) (m : String) : run A fuel w ≠ .internal m :=
+  (runFrom_post hv w fuel init (inv_init w)).1 m
+
 end Emboss.Lr1
